@@ -655,10 +655,21 @@ def service_stage(c, judge):
       record(algo, out, space)
   # malformed stream: spaces an algorithm does not document must be refused, not answered
   mixed = [{'name': 'x', 't': 'D', 'lo': 0.0, 'hi': 1.0, 'sc': 'LIN'}, {'name': 'k', 't': 'C', 'cats': ['a', 'b'], 'sc': None}]
+  # ... the unsupported kind first, in the middle and last (a decoder that slices an array positionally loses
+  # what FOLLOWS the unsupported parameter), and integer / discrete parameters
+  mixed_first = [{'name': 'k', 't': 'C', 'cats': ['a', 'b', 'c'], 'sc': None}, {'name': 'x', 't': 'D', 'lo': 0.0, 'hi': 1.0, 'sc': 'LIN'},
+                 {'name': 'y', 't': 'D', 'lo': -2.0, 'hi': 2.0, 'sc': 'LIN'}]
+  mixed_mid = [{'name': 'lr', 't': 'D', 'lo': 1e-4, 'hi': 0.1, 'sc': 'LOG'}, {'name': 'opt', 't': 'C', 'cats': ['adam', 'sgd'], 'sc': None},
+               {'name': 'wd', 't': 'D', 'lo': 0.0, 'hi': 1.0, 'sc': 'LIN'}]
+  mixed_num = [{'name': 'n', 't': 'I', 'lo': 1, 'hi': 6, 'sc': None}, {'name': 'd', 't': 'S', 'vals': [0.1, 0.5, 2.0], 'sc': None},
+               {'name': 'x', 't': 'D', 'lo': 0.0, 'hi': 1.0, 'sc': 'LIN'}]
   for algo in BOOL_ALGOS + ['CMA_ES']:
-    out = run_study(c, judge, algo, mixed, 2, [2], note=':undocumented-space')
-    record(algo, out, mixed)
-    c.count(1, ('malformed', algo), kind='malformed:undocumented-space')
+    for tag, sp in (('last', mixed), ('first', mixed_first), ('middle', mixed_mid), ('numeric', mixed_num)):
+      if tag != 'last' and quick and algo != 'CMA_ES':
+        continue
+      out = run_study(c, judge, algo, sp, 2, [2, 1], note=':undocumented-space:' + tag)
+      record(algo, out, sp)
+      c.count(1, ('malformed', algo, tag), kind='malformed:undocumented-space')
   # CMA_ES on the space it documents (continuous only): cannot run in this sandbox (evojax vs jax)
   cont = [{'name': 'x', 't': 'D', 'lo': -1.0, 'hi': 3.0, 'sc': 'LIN'}, {'name': 'y', 't': 'D', 'lo': 1e-3, 'hi': 10.0, 'sc': 'LOG'}]
   out = run_study(c, judge, 'CMA_ES', cont, 2, [2])
